@@ -546,6 +546,44 @@ fn wide_laws(tier: Tier, run: &mut Run) {
     }
 }
 
+/// Dicts that differ in one tag only, for every pair of tag names the library's source mentions
+/// (a shortcut in == / hash / cmp keyed on particular tag names shows here): the pair laws on each.
+fn named_tag_laws(local_run: &mut Run) {
+    let names = u::harvested_names();
+    local_run.note("harvested_names", json!(names.len()));
+    let vals = [V::Sym("x".into()), V::str("x"), V::Ref("x".into(), None), V::Marker, V::num(1.0)];
+    let n = names.len();
+    let l = par_for(n * n, |k, local| {
+        let (i, j) = (k / n, k % n);
+        if i > j {
+            return;
+        }
+        for (vi, v) in vals.iter().enumerate() {
+            let mk = |other: V| {
+                let mut t = vec![(names[i].as_str(), v.clone()), ("zq9", other)];
+                if i != j {
+                    t.push((names[j].as_str(), vals[(vi + 1) % vals.len()].clone()));
+                }
+                to_lib(&V::dict(&t))
+            };
+            let (a, b) = (mk(V::num(1.0)), mk(V::num(2.0)));
+            local.evals += 1;
+            let e = a == b;
+            let o = a.cmp(&b);
+            let bad = e || o == Ordering::Equal || a.partial_cmp(&b).map_or(false, |p| p != o) || (h1(&a) == h1(&b) && h2(&a) == h2(&b) && e) || (b == a) != e || o != b.cmp(&a).reverse() || !(a == a.clone()) || h1(&a) != h1(&a.clone());
+            if bad {
+                local.fail(
+                    &format!("named-tags:dicts-differing-in-one-tag-compare-equal:{}", v.kind_name()),
+                    json!({"type": "Value", "law": "named-tags", "names": [names[i], names[j]], "value_kind": vi}),
+                    format!("dicts {a:?} and {b:?} differ in tag zq9: == {e}, cmp {o:?}, partial {:?}", a.partial_cmp(&b)),
+                );
+            }
+        }
+        local.count("named-tag-pairs");
+    });
+    local_run.absorb(l);
+}
+
 const TYPES: &[&str] = &["Value", "Number", "Coord", "Ref", "Str", "Uri", "Symbol", "XStr", "Bool", "List", "Dict", "Grid", "Column", "Date", "Time", "DateTime"];
 
 /// Unit: Eq + Hash + PartialOrd over all database units
@@ -581,7 +619,7 @@ fn unit_laws(local: &mut Local) {
 
 pub fn run(tier: Tier) -> i32 {
     let mut run = Run::new("C12", tier, "exploration");
-    run.rule = "near-collision pool Π (±0 plain/with unit/in Coord/nested, same magnitude under different or no unit, Refs differing only in dis, same payload under different kinds, dict/list/grid neighbours, equal instants in different zones); every law on all |Π|² ordered pairs and all |Π|³ triples, for Value and each typed value; plus the wide set W (Π, the scalar alphabet Σ — every 5th value in the quick tier —, 300/1500 containers of U, the ver variants; no NaN): every pair law on all |W|² ordered pairs of Values and transitivity of == and of cmp on all |W|³ triples decided through ranks and classes (equivalent, O(|W|²)); HashSet/BTreeSet/sort+dedup of W have one element per ==-class; non-trivial = ordered pair of two different pool entries (distinct by type + both values)".into();
+    run.rule = "near-collision pool Π (±0 plain/with unit/in Coord/nested, same magnitude under different or no unit, Refs differing only in dis, same payload under different kinds, dict/list/grid neighbours, equal instants in different zones); every law on all |Π|² ordered pairs and all |Π|³ triples, for Value and each typed value; plus the wide set W (Π, the scalar alphabet Σ — every 5th value in the quick tier —, 300/1500 containers of U, the ver variants; no NaN): every pair law on all |W|² ordered pairs of Values and transitivity of == and of cmp on all |W|³ triples decided through ranks and classes (equivalent, O(|W|²)); HashSet/BTreeSet/sort+dedup of W have one element per ==-class; for every pair of identifier-like string literals of the library's own source (harvested from /repo/src at run time) two dicts carrying those tags and differing in a third tag only must be unequal under ==, cmp, partial_cmp; non-trivial = ordered pair of two different pool entries (distinct by type + both values)".into();
     run.assume("no NaN anywhere (excluded by the statement)");
     run.assume("SipHash (DefaultHasher) and FNV-1a stand for 'any Hasher'");
     crate::engine::quiet_panics();
@@ -599,6 +637,8 @@ pub fn run(tier: Tier) -> i32 {
     });
     run.absorb(l);
     wide_laws(tier, &mut run);
+    named_tag_laws(&mut run);
+    run.require(run.counter("named-tag-pairs") > 1000, "too few names harvested from the source");
     run.require(run.counter("wide-values") > 500, "wide set too small");
     for t in ["Value", "Number", "Coord", "Ref", "Dict", "Grid", "List"] {
         run.require(run.counter(&format!("equal-but-not-identical:{t}")) > 0, &format!("no equal-but-not-identical pair of type {t}"));
@@ -618,6 +658,13 @@ pub fn replay(case: &J) -> Verdict {
     let mut local = Local::new();
     if ty == "Unit" {
         unit_laws(&mut local);
+    } else if law == "named-tags" {
+        let mut run = Run::new("C12", Tier::Quick, "exploration");
+        named_tag_laws(&mut run);
+        return match run.stats.fails.values().find(|f| f.case["names"] == case["names"] && f.case["value_kind"] == case["value_kind"]) {
+            Some(f) => Err((f.sig.clone(), f.detail.clone())),
+            None => Ok(()),
+        };
     } else if case["wide"] == true {
         // a consequence on the wide set: rebuild the set of the recording tier and look the same
         // consequence up again
